@@ -358,6 +358,51 @@ fn run_slice<'gc, E: Part + Collect<'gc>>(mc: &'gc Mutation<'gc>, base: u32, len
     (ex, g)
 }
 
+/// `copy_slice` on a slice-with-header builder whose header has a destructor: a rejected source must
+/// not leak (or double-destruct) the header that was already written.
+fn run_copy_hdr<'gc>(mc: &'gc Mutation<'gc>, base: u32, len: usize, stage: Stage, errs: &mut Vec<String>) -> (Expect, Option<Gc<'gc, ()>>) {
+    let mut ex = Expect { class: format!("copy_slice-with-header:{}", stage_name(stage, len)), ..Default::default() };
+    let delta = match stage {
+        Stage::WrongLen(d) if d != 0 => d as i64,
+        _ => 0,
+    };
+    let hid = base;
+    let src_len = (len as i64 + delta).max(0) as usize;
+    let src: Vec<ECopy> = (0..src_len).map(|i| ECopy::make(base + 1 + i as u32)).collect();
+    obs::capture_on();
+    let b = GcSliceWithHeaderBuilder::<ETok, ECopy>::new(len);
+    ex.block = obs::capture_off_seq().last().copied();
+    if let Some((b, _)) = ex.block {
+        obs::watch(b, b);
+    }
+    let sb = b.write_header(ETok::make(hid));
+    if src_len == len {
+        let g = sb.copy_slice(mc, &src);
+        ex.completed = true;
+        if g.slice.len() != len || g.slice.iter().zip(src.iter()).any(|(a, b)| a.v != b.v) || g.header.id() != Some(hid) {
+            errs.push(format!("{}: contents differ from what was written", ex.class));
+        }
+        ex.alive.push(hid);
+        ex.probe_ids.push(hid);
+        (ex, Some(Gc::erase(g)))
+    } else {
+        let r = catch_unwind(AssertUnwindSafe(|| sb.copy_slice(mc, &src)));
+        match r {
+            Ok(_) => errs.push(format!("{}: copy_slice accepted a source of length {src_len} for a slice of length {len}", ex.class)),
+            Err(p) => {
+                let m = obs::panic_message(&*p);
+                if !m.contains("is not length") {
+                    errs.push(format!("{}: wrong-length copy panicked with: {m}", ex.class));
+                }
+                ex.panicked_as_expected = true;
+            }
+        }
+        // the header was initialised: it is destructed exactly once, now
+        ex.dropped_now.push(hid);
+        (ex, None)
+    }
+}
+
 fn run_copy<'gc>(mc: &'gc Mutation<'gc>, base: u32, len: usize, stage: Stage, errs: &mut Vec<String>) -> (Expect, Option<Gc<'gc, ()>>) {
     let mut ex = Expect { class: format!("copy_slice:{}", stage_name(stage, len)), ..Default::default() };
     let delta = match stage {
@@ -588,7 +633,13 @@ fn dispatch<'gc>(mc: &'gc Mutation<'gc>, base: u32, kind: u8, hdr: u8, elem: u8,
             2 => run_slice::<EZst>(mc, base, len, stage, meta, errs),
             _ => run_slice::<ECopy>(mc, base, len, stage, meta, errs),
         },
-        3 => run_copy(mc, base, len, stage, errs),
+        3 => {
+            if hdr % 2 == 1 {
+                run_copy_hdr(mc, base, len, stage, errs)
+            } else {
+                run_copy(mc, base, len, stage, errs)
+            }
+        }
         _ => run_str(mc, base, len, stage, meta, errs),
     }
 }
